@@ -10,6 +10,9 @@ import (
 	spb "github.com/openconfig/gribi/v1/proto/service"
 	wpb "github.com/openconfig/ygot/proto/ywrapper"
 
+	"github.com/openconfig/gribigo/server"
+
+	"verifharness/drv"
 	"verifharness/ev"
 	"verifharness/gen"
 	"verifharness/mon"
@@ -146,10 +149,87 @@ func TestCheck(t *testing.T) {
 			run.Distinct(caseID)
 		}
 	})
+	// Hand-over part: operations a superseded primary left unanswered (held for a forward
+	// reference) must leave no trace once another session is primary - whatever that
+	// session programs afterwards, the contents are the fold of what was acknowledged.
+	nHand := run.Pick(400, 8000)
+	ev.Parallel(nHand, ev.Workers(), func(i int) {
+		caseID := fmt.Sprintf("handover-%d", i)
+		if !run.Want(caseID) {
+			return
+		}
+		r := run.Rand(caseID)
+		g := gen.New(r)
+		g.S.Default = server.DefaultNetworkInstanceName
+		g.PInvalid = 0
+		g.Rich = false
+		g.WTable = [5]int{2, 2, 2, 3, 3} // many top-level entries and groups before their dependencies
+		w, err := mon.NewSessWorld(g.S, false, false)
+		if err != nil {
+			run.Fatal(err.Error())
+			return
+		}
+		defer w.Close()
+		a, probs := w.Connect()
+		probs = append(probs, w.SendParams(a, drv.SinglePrimary(i%2 == 0))...)
+		ea := &spb.Uint128{High: uint64(r.Intn(2)), Low: uint64(1 + r.Intn(3))}
+		probs = append(probs, w.SendElection(a, ea)...)
+		for k := 0; k < 1+r.Intn(3) && len(probs) == 0; k++ {
+			probs = append(probs, w.SendOps(a, g.History(1+r.Intn(5)), ea)...)
+			probs = append(probs, w.CompareState()...)
+		}
+		heldByA := len(w.X.M.Held)
+		b, p := w.Connect()
+		probs = append(probs, p...)
+		probs = append(probs, w.SendParams(b, drv.SinglePrimary(i%2 == 0))...)
+		eb := &spb.Uint128{High: ea.High, Low: ea.Low}
+		how := "equal-id"
+		switch r.Intn(3) {
+		case 1:
+			eb.Low++
+			how = "higher-low"
+		case 2:
+			eb.High++
+			eb.Low = 0
+			how = "higher-high"
+		}
+		if r.Intn(3) == 0 && len(probs) == 0 {
+			probs = append(probs, w.Disconnect(a, []string{"close", "cancel"}[r.Intn(2)])...)
+			how += "/old-primary-gone"
+		}
+		if len(probs) == 0 {
+			probs = append(probs, w.SendElection(b, eb)...)
+			probs = append(probs, w.CompareState()...)
+		}
+		for k := 0; k < 2+r.Intn(4) && len(probs) == 0 && b.Open; k++ {
+			probs = append(probs, w.SendOps(b, g.History(1+r.Intn(5)), eb)...)
+			probs = append(probs, w.CompareState()...)
+		}
+		var real []string
+		for _, p := range probs {
+			if strings.HasPrefix(p, "INCONCLUSIVE|") {
+				run.Inconclusive(caseID + ": " + p[13:])
+				continue
+			}
+			if strings.HasPrefix(p, "HARNESS|") {
+				run.Fatal(caseID + ": " + p[8:])
+				continue
+			}
+			real = append(real, p)
+		}
+		mon.Report(run, caseID, w.Trace, real)
+		run.Eval(1)
+		run.Count("handover_scripts", 1)
+		if heldByA > 0 {
+			run.Count("handovers_with_unanswered_operations_of_the_old_primary", 1)
+			run.Seen("handover_variants", how)
+			run.Distinct(strings.Join(w.Trace, "\n"))
+		}
+	})
 	run.Set("exhaustive_alphabet_size", len(alpha))
 	run.Set("exhaustive_max_length", L)
 	run.Assume("content-validity of generated payloads is decided by the generator's class tag (calibrated against the schema), not re-derived by the model")
-	run.Finish("seeded random histories (8-40 ops; a few of 2000 in thorough) of ADD/REPLACE/DELETE over 5 tables x 3 NIs with 3-4 keys per table, rich payloads, cross-NI group refs, 4% content-invalid ops, interleaved flushes; 1 in 4 with forward references disallowed; plus EVERY sequence of up to 3 (quick) / 4 (thorough) operations over a 15-symbol alphabet (ADD with two payloads, REPLACE with two payloads, DELETE, for next-hop 1, group 1 and one IPv4 prefix) in both forward-reference modes - exhaustive for that bounded space. Non-trivial = history leaves entries or held operations; distinct = by full history text", 100, false)
+	run.Finish("seeded random histories (8-40 ops; a few of 2000 in thorough) of ADD/REPLACE/DELETE over 5 tables x 3 NIs with 3-4 keys per table, rich payloads, cross-NI group refs, 4% content-invalid ops, interleaved flushes; 1 in 4 with forward references disallowed; plus EVERY sequence of up to 3 (quick) / 4 (thorough) operations over a 15-symbol alphabet (ADD with two payloads, REPLACE with two payloads, DELETE, for next-hop 1, group 1 and one IPv4 prefix) in both forward-reference modes - exhaustive for that bounded space; plus hand-over scripts over real Modify sessions (a primary leaves operations held, another session becomes primary with an equal or higher id and programs on; full state vs model after every batch). Non-trivial = history leaves entries or held operations; distinct = by full history text", 100, false)
 }
 
 // alphabet: ADD (2 payloads) / REPLACE (2 payloads) / DELETE for each of NH 1, NHG 1 and one
